@@ -31,7 +31,7 @@ TEXT = {
  'C03': 'about 800 (quick) / 20 000 (thorough) real command-line conversions: every source x destination pair, A->B->A and A->B->C chains, B->B byte-for-byte idempotence with the tool\'s own reader, utf-8/latin-1/utf-16 on both sides, gzip and directory sources; destination decoded independently and compared on the intersection of what both formats carry. Held on the executions observed.',
  'C09': 'grammars from an independent reference extraction (raw and binarized in random modes) and synthetic grammars of enumerated canonical rules are written in PMCFG/RCG/LoPar (+-lex_in_grammar, utf-8/latin-1) through API and CLI and decoded independently: rules, linearizations, counts, lexicon, start symbols, open-class files; RCG re-read with the tool\'s reader and used as input of `treetools grammar`; LoPar must refuse non-context-free grammars. Held on the executions observed.',
  'C17': 'all specifications of up to 3 (quick) / 4 (thorough) parts over a value grid x sizes 0..25/60, 100, 101, 1000 against exact integer arithmetic incl. rejection of malformed, negative, double-rest and oversized specifications; real split runs in all five formats (with/without filter_by_length): each part decodes, holds exactly its share, concatenation equals the unsplit run, and the tool\'s own reader accepts every part. Held on the executions observed.',
- 'C18': '160 (quick) / 6 000 (thorough) sessions of 25/40 interleaved operations with repetition: outputs must not depend on position in the session, must equal the output of the single operation in fresh processes (PYTHONHASHSEED 0/1/random; set-like files as sorted multisets), two alternately advanced readers must equal separate reads, A+B results must be the concatenation/sum, no global state other than the node-id counter and the two terminal-file caches may change, and no operation may open another operation\'s files. Held on the executions observed.',
+ 'C18': '160 (quick) / 2 500 (thorough) sessions of 25/40 interleaved operations with repetition: outputs must not depend on position in the session, must equal the output of the single operation in fresh processes (PYTHONHASHSEED 0/1/random; set-like files as sorted multisets), two alternately advanced readers must equal separate reads, A+B results must be the concatenation/sum, no global state other than the node-id counter and the two terminal-file caches may change, and no operation may open another operation\'s files. Held on the executions observed.',
  'C04': 'every call of a structural transformation made while driving 8 000 (quick) / 300 000 (thorough) prerequisite-respecting sequences of up to 5/7 steps, plus every transformation alone on all shapes up to 4/5 tokens, is checked: returned node is a parentless root of a well-formed tree, words/POS unchanged (modulo + concatenation), label multiset as documented per transformation. Held on the executions observed.',
  'C10': 'each emitted sequence is executed by an automaton that knows only the sentence and the transition names and must consume all tokens, end in one item and rebuild the input tree incl. unary nodes, root, labels and head sides; all binary shapes up to 4/5 tokens x head assignments, random trees to 30 tokens, pipeline-produced trees, the plain writer and `treetools transitions` runs. Held on the executions observed.',
  'C11': 'result of every call compared with reference semantics (deleted set, pruning, renumbering, insertion positions, substitution, filter decision, returned root, printed report) on trees with punctuation/traces in hostile positions and terminal files with valid/0/negative/len+1/len+2/duplicate/foreign entries. Held on the executions observed.',
